@@ -9,7 +9,7 @@ import os
 import re
 import subprocess
 
-from .. import ktrans, ctrans
+from .. import ktrans, ctrans, ftrans
 from ..common import LEAN_DIR, REPO
 
 
@@ -21,6 +21,9 @@ def gen_prepare(ctx, theorems: list[str], covers: str):
                        "harness/artv/ctrans.py (statements: BaseART.step_fit / step_pred / predict / partial_fit / fit with their loops, "
                        "inlined add_weight / set_weight / _set_params / _deep_copy_params / hooks; dropped: the guard calls "
                        "validate_data, check_dimensions, check_is_fitted, the write-only flag is_fitted_, tqdm, the unused y); "
+                       "and harness/artv/ftrans.py (FusionART's channel plumbing: comprehensions over range(self.n) with slices by "
+                       "_channel_indices / _weight_indices, zip(*…), sum, all, np.concatenate, loops writing through modules[k]; the nested "
+                       "estimators stay abstract objects); "
                        "Python AST -> Lean definitions, regenerated on every run, fail closed on unsupported syntax; covers " + covers)
     with open(LEAN_DIR / ".gen.lock", "w") as lock:
         fcntl.flock(lock, fcntl.LOCK_EX)
@@ -36,14 +39,20 @@ def gen_prepare(ctx, theorems: list[str], covers: str):
                 ctx.issue("audit", "obligation:ControlSpec:translator",
                           f"the control-flow translator could not translate the training code of BaseART / SimpleARTMAP: {msg}")
                 return
+            ok, msg = ftrans.write(REPO)
+            ctx.log.append(f"ftrans: {msg}")
+            if not ok:
+                ctx.issue("audit", "obligation:FusionSpec:translator",
+                          f"the FusionART translator could not translate artlib/fusion/FusionART.py: {msg}")
+                return
             p = subprocess.run(["lake", "build", "ArtGenProofs"], cwd=LEAN_DIR, capture_output=True, text=True)
             if p.returncode != 0:
                 errs = [l for l in (p.stdout + p.stderr).split("\n") if "error" in l][:6]
                 ctx.issue("audit", "obligation:GenSpec:build",
                           "definitions generated from the source are no longer provably equal to the model: " + " | ".join(errs)[:600],
-                          {"generated_files": ["lean/ArtGen/Kernels.lean", "lean/ArtGen/Control.lean"], "errors": errs})
+                          {"generated_files": ["lean/ArtGen/Kernels.lean", "lean/ArtGen/Control.lean", "lean/ArtGen/Fusion.lean"], "errors": errs})
                 return
-            src = "import ArtGenProofs.GenSpec\nimport ArtGenProofs.ControlSpec\nimport ArtGenProofs.ControlFit\n" + "\n".join(f"#print axioms {n}" for n in names) + "\n"
+            src = "import ArtGenProofs.GenSpec\nimport ArtGenProofs.ControlSpec\nimport ArtGenProofs.ControlFit\nimport ArtGenProofs.FusionSpec\n" + "\n".join(f"#print axioms {n}" for n in names) + "\n"
             tmp = LEAN_DIR / f".audit_gen_{os.getpid()}.lean"
             tmp.write_text(src)
             try:
@@ -66,3 +75,4 @@ def gen_prepare(ctx, theorems: list[str], covers: str):
             if str(REPO) != "/repo":
                 ktrans.write("/repo")      # leave the committed generated files describing /repo
                 ctrans.write("/repo")
+                ftrans.write("/repo")
